@@ -194,25 +194,34 @@ def check(res):
     tripped = False
     pending = bool(sus_f(case["init"]))
     want_req = []
+    maybe_req = 0  # trips during whose handling the engine's state changed (the plan ended just then): 0 or 1 request
     states = []
     cur_state = "idle"
+    changed = False
     for e in evs:
         if e.kind == "state":
             cur_state = e.d["new"]
+            changed = True
         elif e.kind == "dev" and e.d["dev"] == "sigS" and e.d["method"] == "put":
             state_at_put = cur_state
+            changed = False
         elif e.kind == "sus" and e.d["installed"]:
             val = e.d["value"]
             if sus_f(val):
                 if not pending:
                     pending = True
-                    if state_at_put == "running":
+                    # (the suspender looks at RE.state only after it has made its event on the loop thread, a few
+                    # loop steps after the update was delivered)
+                    if changed and "running" in (state_at_put, cur_state):
+                        maybe_req += 1
+                        res.notes["trip_raced_with_state_change"] = res.notes.get("trip_raced_with_state_change", 0) + 1
+                    elif state_at_put == "running":
                         want_req.append(e.seq)
             elif res_f(val):
                 pending = False
     got_req = [e.seq for e in evs if e.kind == "sus_request"]
-    if len(got_req) != len(want_req):
-        out.append(V("request-suspend-count", f"{len(got_req)} request_suspend calls, the model expects {len(want_req)}", got=len(got_req), want=len(want_req)))
+    if not (len(want_req) <= len(got_req) <= len(want_req) + maybe_req):
+        out.append(V("request-suspend-count", f"{len(got_req)} request_suspend calls, the model expects {len(want_req)}" + (f" to {len(want_req) + maybe_req}" if maybe_req else ""), got=len(got_req), want=len(want_req)))
     # no early release: the helper resumes no earlier than (first resume-satisfying value after the trip) + sleep
     # (the trip that matters is the value that made the suspender call request_suspend: the releasing
     # value may arrive before the engine has even processed '_start_suspender')
